@@ -11,5 +11,6 @@ def leg(name, flavour="plain", leg="", batches=1, timeout=None, parallel=1, tier
     return d
 
 PLANS = {
+    "C15": {"level": "exploration", "exhaustive": False, "legs": [leg("main")]},
     "C20": {"level": "exploration", "exhaustive": True, "legs": [leg("main")]},
 }
